@@ -823,6 +823,9 @@ func TestCheck(t *testing.T) {
 		for mask := 1; mask < 1<<len(recipes()); mask++ {
 			tasks = append(tasks, task{kind: "miner", cfg: name, node: mask})
 		}
+		for k := 1; k <= 8; k++ { // uncle candidate at every depth around the builder's / verifier's age window
+			tasks = append(tasks, task{kind: "miner", cfg: name, node: 1000 + k})
+		}
 	}
 	sort.SliceStable(tasks, func(i, j int) bool { return tasks[i].kind < tasks[j].kind })
 	deadline := run.Deadline(6*time.Minute, 45*time.Minute)
